@@ -64,6 +64,11 @@ ODD = _switch_comment_shapes() + [
     "QWidget { QLayout.row { x: 1 } }", "QWidget { QLayout { row: 1 } }", "QWidget { font { QLayout.row: 1 } }",
     "QWidget { id: a; id: b }", "QWidget { id: 1 }", "QWidget { id: a.b }", "QWidget { id: \"x\" }", "QWidget { id: { a } }",
     "QWidget { windowTitle: { let a: void; \"x\" } }", "QWidget { windowTitle: { let a = console.log(1); \"x\" } }",
+    "QWidget { QLabel { indent: Qt.AlignRight as int } }", "QWidget { QLabel { indent: (Qt.AlignLeft | Qt.AlignTop) as int } }",
+    "QWidget { QLabel { indent: Qt.AlignRight as uint } }", "QWidget { QLabel { indent: true as int; margin: 1.5 as int } }",
+    "QWidget { windowOpacity: 1 as double; minimumWidth: (2.5 as int) + (true as int) }", "QWidget { font.pointSize: Qt.Horizontal as int }",
+    "QWidget { QGridLayout { QLabel { QLayout.row: Qt.Vertical as int; QLayout.column: false as int } } }", "QWidget { QLabel { indent: QLabel.PlainText as int } }",
+    "QWidget { QVBoxLayout { spacing: Qt.AlignRight as int; contentsMargins.left: Qt.AlignRight as int } }", "QWidget { minimumWidth: Qt.AlignRight as double }",
     "QWidget { windowTitle: (1 as void) }", "QWidget { windowTitle: { return; } }", "QWidget { enabled: { } }", "QWidget { enabled: ; }",
     "QWidget { minimumWidth: 99999999999999999999 }", "QWidget { minimumWidth: 9223372036854775808 }", "QWidget { minimumWidth: -9223372036854775808 }",
     "QWidget { minimumWidth: 1 << 64 }", "QWidget { minimumWidth: 1 << -1 }", "QWidget { minimumWidth: 1 / 0 }", "QWidget { minimumWidth: 1 % 0 }",
@@ -168,6 +173,42 @@ def soup(rng):
     return " ".join(rng.choice(VOCAB) for _ in range(n))
 
 
+def deep_documents():
+    """Deeply nested documents.  -> [(kind, declared depth, source)]
+
+    `deep-ok`: shapes and depths the tool copes with (they bound what the listed finding `stack-overflow-on-deep-nesting` excuses: any
+    crash here is a violation).  `deep-overflow`: expression nesting of 6000 levels, where the recursive expression walk of the unchanged
+    tree exhausts the 8 MiB main stack (listed finding; fine if a later version copes)."""
+    w = lambda body: "import qmluic.QtWidgets\n" + body + "\n"
+    shapes = {
+        "plus": lambda d: "QWidget { minimumWidth: %s }" % " + ".join(["1"] * d),
+        "not": lambda d: "QWidget { enabled: %strue }" % ("!" * d),
+        "neg": lambda d: "QWidget { minimumWidth: %s1 }" % ("- " * d),
+        "array": lambda d: "QWidget { windowTitle: %s1%s }" % ("[" * d, "]" * d),
+        "ternary": lambda d: "QWidget { minimumWidth: %s 1 }" % ("true ? 1 : " * d),
+        "call": lambda d: "QWidget { minimumWidth: %s1%s }" % ("Math.max(1, " * d, ")" * d),
+        "member": lambda d: "QWidget { minimumWidth: a%s }" % (".b" * d),
+        "logical": lambda d: "QWidget { enabled: %s }" % " && ".join(["true"] * d),
+        "concat": lambda d: "QWidget { windowTitle: %s }" % " + ".join(['"a"'] * d),
+    }
+    out = []
+    for name, f in shapes.items():
+        out.append(("deep-ok", 1200, w(f(1200))))
+        out.append(("deep-overflow", 6000, w(f(6000))))
+    out += [
+        ("deep-ok", 100000, w('QWidget { windowTitle: %s"a" + "b"%s }' % ("(" * 100000, ")" * 100000))),
+        ("deep-ok", 100000, w('QWidget { windowTitle: %s"a" + * "b"%s }' % ("(" * 100000, ")" * 100000))),
+        ("deep-ok", 20000, w('QWidget { windowTitle: %s"a" + * "b"%s }' % ("(" * 20000, ")" * 20000))),
+        ("deep-ok", 1200, w("QWidget { windowTitle: %s * %s }" % ("[" * 1200, "]" * 1200))),
+        ("deep-ok", 1200, w("QWidget { minimumWidth: %s 1 + }" % ("true ? 1 : " * 1200))),
+        ("deep-ok", 4000, w("QWidget { minimumWidth: { %s 1 %s } }" % ("{ " * 4000, "}" * 4000))),
+        ("deep-ok", 4000, w("QWidget { onWindowTitleChanged: { %s {} } }" % ("if (true) {} else " * 4000))),
+        ("deep-ok", 2000, w("QWidget { %s %s }" % ("QWidget { " * 2000, "}" * 2000))),
+        ("deep-ok", 2000, w("QWidget { %s text: * %s }" % ("QGroupBox { " * 2000, "}" * 2000))),
+    ]
+    return out
+
+
 def check_result(v, src, r, kind):
     mode = r.get("mode")
     rp = {"source": src, "mode": mode, "kind": kind}
@@ -201,6 +242,10 @@ def run(tier, seed, replay=None):
     scale = 1 if tier == "quick" else 25
     corpus = []   # (kind, source)
     wrap = lambda body: "import qmluic.QtWidgets\n" + body + "\n"
+    deep_depth = {}
+    for k, depth, src in deep_documents():
+        deep_depth[len(corpus)] = depth
+        corpus.append((k, src))
     for o in ODD:
         corpus.append(("odd", wrap(o) if not o.startswith(("import", "pragma")) and o.strip() not in ("", "\ufeff") else o))
         corpus.append(("odd-noimport", o))
@@ -244,7 +289,7 @@ def run(tier, seed, replay=None):
     for i, (kind, src) in enumerate(corpus):
         rs = out.results.get("j%d" % i)
         if not rs:
-            if "j%d" % i not in out.cpu_violations:
+            if "j%d" % i not in out.cpu_violations and "j%d" % i not in {c[0] for c in out.crashes}:
                 v.inconc("no result for a %s document" % kind)
             continue
         ok = True
@@ -272,6 +317,11 @@ def run(tier, seed, replay=None):
     crashed = {jid for jid, _, _ in out.crashes}
     for jid, status, err in out.crashes:
         k, src = corpus[int(jid[1:])]
+        if k == "deep-overflow" and "has overflowed its stack" in err and deep_depth.get(int(jid[1:]), 0) >= 6000:
+            # listed finding, keyed on the input family (expression nesting of 6000 levels) and on the way the process died
+            v.violation("stack-overflow-on-deep-nesting", "the recursive expression walk exhausted the stack on an expression nested %d levels "
+                        "deep (signal %d): %s" % (deep_depth[int(jid[1:])], -status, err[-160:]), {"source_head": src[:300], "kind": k, "stderr": err})
+            continue
         v.violation("process-crash", "translating the document alone killed the process with signal %d (memory budget %d GiB): %s"
                     % (-status, common.MEM_BUDGET_BYTES >> 30, err[-200:]), {"source": src, "kind": k, "stderr": err})
     for jid, why in out.inconclusive:
